@@ -74,6 +74,18 @@ async fn a_handler_that_reacts_to_everything_never_feeds_itself() {
     assert!(saw.len() <= all.len() - before + 8 && saw.len() < 30, "C14: the handler fed itself: {} fwd.saw frames", saw.len());
     for s in &saw { assert_eq!(hid(s), fwd.id.to_string(), "C15/C14: every output carries the emitting handler's id, whatever --meta said"); }
     let _ = src;
+    // C15: the explicit appends of a call that returns nothing are emitted with THAT call, stamped with its trigger
+    let _j = register(&store, "job", ZERO_CONTEXT, r#"{run: {|frame| if $frame.topic != "work" { return }; "half" | .append job.progress; null }}"#).await;
+    let w1 = store.append(Frame::builder("work", ZERO_CONTEXT).build()).unwrap();
+    wait_for(&store, |fs| fs.iter().any(|x| x.topic == "job.progress"), "C15: job.progress of a call that returned nothing").await;
+    let pr = store.read_sync(None, None, None).find(|x| x.topic == "job.progress").unwrap();
+    assert_eq!(fid(&pr), w1.id.to_string(), "C15: an explicit append carries the id of the frame that triggered its own call");
+    // C15: the configured TTL applies to the return frame also when no custom suffix is configured
+    let _t = register(&store, "latest", ZERO_CONTEXT, r#"{return_options: {ttl: "head:1"}, run: {|frame| if $frame.topic != "go" { return }; "v" }}"#).await;
+    store.append(Frame::builder("go", ZERO_CONTEXT).build()).unwrap();
+    wait_for(&store, |fs| fs.iter().any(|x| x.topic == "latest.out"), "latest.out").await;
+    let out = store.read_sync(None, None, None).find(|x| x.topic == "latest.out").unwrap();
+    assert_eq!(out.ttl, Some(xs::store::TTL::Head(1)), "C15: return_options {{ttl}} without a suffix: the return frame carries the configured TTL");
 }
 
 #[tokio::test(flavor = "multi_thread", worker_threads = 4)]
